@@ -533,7 +533,11 @@ impl NISPSignaturePoK {
         let s_3 = r_3 + rx * &challenge;
         let s_4 = r_4 + signature.e.clone() * &challenge;
         let mut s_5: Vec<Integer> = Vec::new();
-        for i in unrevealed_message_indexes {
+        // the verifier consumes s_5 in ascending attribute position: answer in that order
+        // whatever the order of the caller's list
+        let mut ascending_indexes = unrevealed_message_indexes.to_vec();
+        ascending_indexes.sort_unstable();
+        for i in &ascending_indexes {
             let si = r_5
                 .get(*i)
                 .expect("unrevealed_message_indexes not valid (overflow)")
